@@ -2019,3 +2019,189 @@ func init() {
 		Doc: "floor semantics of >> on machine words: in py.Int's M__rshift__/M__rrshift__ and the shifting functions they call, every result-yielding return is a signed Go >> (which fills with the sign for any count), another such function's result, or a constant governed by a test that mentions the shifted operand — never a sign-blind constant for large counts",
 		Run: runRshiftSign})
 }
+
+// ---- C10.R6: no delegation cycle ----
+//
+// A Go stack overflow is not a panic: no recover barrier intercepts it and the runtime kills the process. Recursion whose
+// depth Python code chooses is the known finding C10.R4; this rule decides a different, purely structural way to the same
+// end: two functions (or one) that hand their own arguments on to each other unchanged. f calls g with f's receiver
+// and parameters (or constants) and g calls f the same way: nothing shrinks from one call to the next, so whenever the
+// conditions on the way hold once they hold for ever and the cycle never ends. Decided on the static call graph of
+// the module restricted to such pure delegations; any cycle is reported.
+func runDelegationCycle(c *Ctx, r *Rep) {
+	type edge struct {
+		to  *types.Func
+		pos token.Pos
+	}
+	g := map[*types.Func][]edge{}
+	nFuncs := 0
+	for _, p := range c.ModulePkgs() {
+		info := p.TypesInfo
+		for _, f := range c.Files(p) {
+			if isTestFile(c, f) {
+				continue
+			}
+			for _, d := range f.Decls {
+				fd, ok := d.(*ast.FuncDecl)
+				if !ok || fd.Body == nil {
+					continue
+				}
+				self, _ := info.Defs[fd.Name].(*types.Func)
+				if self == nil {
+					continue
+				}
+				nFuncs++
+				own := map[types.Object]bool{}
+				if fd.Recv != nil {
+					for _, fl := range fd.Recv.List {
+						for _, nm := range fl.Names {
+							own[info.Defs[nm]] = true
+						}
+					}
+				}
+				if fd.Type.Params != nil {
+					for _, fl := range fd.Type.Params.List {
+						for _, nm := range fl.Names {
+							own[info.Defs[nm]] = true
+						}
+					}
+				}
+				// parameters that are assigned or modified in the body do not count as handed on unchanged
+				ast.Inspect(fd.Body, func(n ast.Node) bool {
+					switch x := n.(type) {
+					case *ast.AssignStmt:
+						for _, l := range x.Lhs {
+							if id := identOf(l); id != nil {
+								delete(own, info.ObjectOf(id))
+							}
+							// a field of the receiver (or of a parameter) is assigned: the object changes state from
+							// one call to the next (t.Flags |= READYING), which is how such a recursion ends
+							if sel, ok := unparen(l).(*ast.SelectorExpr); ok {
+								if id := identOf(sel.X); id != nil {
+									delete(own, info.ObjectOf(id))
+								}
+							}
+						}
+					case *ast.IncDecStmt:
+						if id := identOf(x.X); id != nil {
+							delete(own, info.ObjectOf(id))
+						}
+						if sel, ok := unparen(x.X).(*ast.SelectorExpr); ok {
+							if id := identOf(sel.X); id != nil {
+								delete(own, info.ObjectOf(id))
+							}
+						}
+					}
+					return true
+				})
+				passthrough := func(e ast.Expr) bool {
+					e = unparen(e)
+					if tv, ok := info.Types[e]; ok && (tv.Value != nil || tv.IsNil()) {
+						return true
+					}
+					if id, ok := e.(*ast.Ident); ok {
+						return own[info.Uses[id]]
+					}
+					return false
+				}
+				ast.Inspect(fd.Body, func(n ast.Node) bool {
+					if _, isLit := n.(*ast.FuncLit); isLit {
+						return false
+					}
+					call, ok := n.(*ast.CallExpr)
+					if !ok {
+						return true
+					}
+					callee := Callee(info, call)
+					if callee == nil || !inModule(callee) {
+						return true
+					}
+					if c.Decl(callee) == nil {
+						return true // an interface method: resolved at run time, not a static cycle
+					}
+					if sel, ok := unparen(call.Fun).(*ast.SelectorExpr); ok {
+						if s, ok := info.Selections[sel]; ok && s.Kind() == types.MethodVal && !passthrough(sel.X) {
+							return true
+						}
+					}
+					if len(call.Args) == 0 && callee.Type().(*types.Signature).Recv() == nil {
+						return true // nothing is handed on: not a delegation
+					}
+					for _, a := range call.Args {
+						if !passthrough(a) {
+							return true
+						}
+					}
+					g[self] = append(g[self], edge{callee, call.Pos()})
+					return true
+				})
+			}
+		}
+	}
+	// cycles of length 1 and 2 (longer ones are found through the same pairs only if every link is a delegation;
+	// a depth-first search over this sparse graph covers them)
+	var cycles [][]*types.Func
+	seen := map[string]bool{}
+	var stack []*types.Func
+	onStack := map[*types.Func]int{}
+	done := map[*types.Func]bool{}
+	var dfs func(f *types.Func)
+	dfs = func(f *types.Func) {
+		onStack[f] = len(stack)
+		stack = append(stack, f)
+		for _, e := range g[f] {
+			if i, ok := onStack[e.to]; ok {
+				cyc := append([]*types.Func(nil), stack[i:]...)
+				var names []string
+				for _, x := range cyc {
+					names = append(names, FuncID(x))
+				}
+				sort.Strings(names)
+				k := strings.Join(names, " ")
+				if !seen[k] {
+					seen[k] = true
+					cycles = append(cycles, cyc)
+				}
+				continue
+			}
+			if !done[e.to] {
+				dfs(e.to)
+			}
+		}
+		stack = stack[:len(stack)-1]
+		delete(onStack, f)
+		done[f] = true
+	}
+	var roots []*types.Func
+	for f := range g {
+		roots = append(roots, f)
+	}
+	sort.Slice(roots, func(i, j int) bool { return FuncID(roots[i]) < FuncID(roots[j]) })
+	for _, f := range roots {
+		if !done[f] {
+			dfs(f)
+		}
+	}
+	for _, cyc := range cycles {
+		var names []string
+		for _, x := range cyc {
+			names = append(names, FuncID(x))
+		}
+		key := "delegation|" + strings.Join(names, " -> ")
+		if why, ok := confirmedDelegation[key]; ok {
+			r.okTrivial(key, cyc[0].Pos(), "reviewed: %s", why)
+			continue
+		}
+		r.bad(key, cyc[0].Pos(), "%s hand their own receiver and parameters on to each other unchanged (%s -> %s): nothing shrinks from one call to the next, so once the conditions on the way hold the cycle never ends and the Go stack overflows — a fatal error no recover barrier intercepts, which kills the embedding process", strings.Join(names, " and "), strings.Join(names, " -> "), names[0])
+	}
+	r.ok("delegation|graph", token.NoPos, "%d functions, %d with pure delegations, %d cycle(s)", nFuncs, len(g), len(cycles))
+}
+
+// delegation cycles of the reviewed tree, each with the reason it ends
+var confirmedDelegation = map[string]string{}
+
+func init() {
+	register(&Rule{ID: "C10.R6", Prop: "C10", Floor: 1,
+		Doc: "no delegation cycle: in the static call graph of the module restricted to calls that hand on only the caller's own receiver and parameters (unassigned) or constants, there is no cycle — such a cycle cannot make progress and ends in a Go stack overflow, which no recover barrier intercepts",
+		Run: runDelegationCycle})
+}
